@@ -166,7 +166,7 @@ unsafe impl Hal for SimHal {
             let seq = w.hal.seq;
             w.hal.shares.insert(
                 paddr,
-                Share { paddr, ptr, len, dir, ap, bounce, seq, posted_on: None, dev_wrote: false },
+                Share { paddr, ptr, len, dir, ap, bounce, seq, posted_on: None, last_queue: None, dev_wrote: false },
             );
             w.hal.n_share += 1;
             w.ev(0x64, len as u64, paddr);
